@@ -2,7 +2,7 @@
 # verify_seed.sh <Cxx> [demo-relative-path] : confirm a seeded change (from /verif/seeded/<id>/) in a scratch worktree:
 #  clean+demo passes, patch+demo fails, patch without demo passes the whole suite; then run the property's quick check on it.
 set -u
-id=$1; dst=${2:-tests/seed_demo_test.go}
+id=$1; dst=${2:-tests/seed_demo_test.go}; prop=${id%%-*}
 sd=/verif/seeded/$id
 export GOFLAGS=-mod=mod GOPROXY=off GOSUMDB=off GOTOOLCHAIN=local
 wt=$(mktemp -d /tmp/verif-vseed-XXXXXX)
@@ -12,13 +12,13 @@ git -C /repo worktree add -q --detach "$wt" HEAD || exit 2
 demo=$(ls $sd/*_test.go | head -1)
 cp "$demo" "$wt/$dst"
 pkg=./$(dirname $dst)/
-(cd $wt && go test -vet=off -count=1 $pkg >/tmp/vseed-$id-1.log 2>&1); r1=$?
+(cd $wt && go test -vet=off -count=1 -run TestSeed $pkg >/tmp/vseed-$id-1.log 2>&1); r1=$?
 git -C $wt apply $sd/patch.diff || { echo "patch does not apply"; exit 2; }
-(cd $wt && go test -vet=off -count=1 $pkg >/tmp/vseed-$id-2.log 2>&1); r2=$?
+(cd $wt && go test -vet=off -count=1 -run TestSeed $pkg >/tmp/vseed-$id-2.log 2>&1); r2=$?
 rm -f "$wt/$dst"
 (cd $wt && go test -vet=off -count=1 ./... >/tmp/vseed-$id-3.log 2>&1); r3=$?
 echo "$id: clean+demo rc=$r1 (want 0); patch+demo rc=$r2 (want !=0); patch suite rc=$r3 (want 0)"
-out=$(cd /verif && VERIF_REPO="$wt" VERIF_EVIDENCE_DIR="$wt/.evidence" VERIF_REPLAY_DIR="$wt/.replays" ./check "$id" ${TIER:-quick} 2>&1); rc=$?
+out=$(cd /verif && VERIF_REPO="$wt" VERIF_EVIDENCE_DIR="$wt/.evidence" VERIF_REPLAY_DIR="$wt/.replays" ./check "$prop" ${TIER:-quick} 2>&1); rc=$?
 echo "$out" | grep -E "^(VIOLATION|  Test|INCONCLUSIVE)" | head -4
 echo "$id check rc=$rc"
 echo "{\"demo_on_clean_tree\": $r1, \"demo_with_patch\": $r2, \"suite_with_patch\": $r3, \"check_${TIER:-quick}_exit\": $rc}" > /tmp/vseed-$id.json
